@@ -85,3 +85,49 @@ def result_tuple(r):
         fieldProfiles=arr(getattr(r, "fieldProfiles", None)), temperatureProfile=arr(getattr(r, "temperatureProfile", None)),
         solutionType=str(r.solutionType), success=bool(r.success),
     )
+
+
+def construct_eom(grid=None, boltzmannSolver=None, particles=None, Tnucl=1.0, hydro_attrs=None, thermo_attrs=None, nbrFields=1,
+                  meanFreePathScale=1.0, includeOffEq=False, thicknessBounds=(0.1, 100.0), offsetBounds=(-10.0, 10.0), **kw):
+    """A real EOM built by its REAL constructor around stand-in collaborators: instances of the real Hydrodynamics /
+    Thermodynamics classes created without their own constructors and carrying only the attributes / methods the scenario
+    defines, a real grid (a 5 x 3 one unless given) and a real BoltzmannSolver (built on that grid unless given; `particles` are
+    registered with it the documented way). The harness assumes nothing about the EOM's own attribute layout, so a refactoring
+    of its internals cannot break a check (or raise a false alarm)."""
+    from WallGo.boltzmann import BoltzmannSolver
+    from WallGo.equationOfMotion import EOM
+    from WallGo.grid3Scales import Grid3Scales
+    from WallGo.hydrodynamics import Hydrodynamics
+    from WallGo.thermodynamics import Thermodynamics
+
+    swap = None
+    if boltzmannSolver is not None:
+        grid = boltzmannSolver.grid
+    if grid is not None and not isinstance(grid, Grid3Scales):
+        # the constructor insists on a three-scale grid; the one-scale grids of the polynomial/moment lattices (C12, C13) are put in
+        # place of the collaborators AFTER the real constructor ran on a small three-scale grid (only the public collaborator
+        # attributes that mirror the constructor arguments are replaced)
+        if boltzmannSolver is None:
+            boltzmannSolver = BoltzmannSolver(grid)
+            if particles:
+                boltzmannSolver.updateParticleList(list(particles))
+        swap, grid, boltzmannSolver, particles = (grid, boltzmannSolver), None, None, None
+    if grid is None:
+        grid = Grid3Scales(5, 3, 5.0, 5.0, 1.0, 1.0)
+    if boltzmannSolver is None:
+        boltzmannSolver = BoltzmannSolver(grid)
+        if particles:
+            boltzmannSolver.updateParticleList(list(particles))
+    hyd = Hydrodynamics.__new__(Hydrodynamics)
+    for k, v in (hydro_attrs or {}).items():
+        setattr(hyd, k, v)
+    th = Thermodynamics.__new__(Thermodynamics)
+    th.Tnucl = Tnucl
+    for k, v in (thermo_attrs or {}).items():
+        setattr(th, k, v)
+    eom = EOM(boltzmannSolver, th, hyd, grid, nbrFields, meanFreePathScale, list(thicknessBounds), list(offsetBounds),
+              includeOffEq=includeOffEq, **kw)
+    if swap is not None:
+        eom.grid, eom.boltzmannSolver = swap
+        eom.particles = swap[1].offEqParticles
+    return eom
